@@ -244,7 +244,7 @@ func CoqSys(c SysCase, obs []SysObs) string {
 }
 
 func sysValid(t *system.Rule) bool {
-	if t.TriggerCount < 0 || t.MetricType >= system.MetricTypeSize {
+	if math.IsNaN(t.TriggerCount) || t.TriggerCount < 0 || t.MetricType >= system.MetricTypeSize {
 		return false
 	}
 	return !(t.MetricType == system.CpuUsage && t.TriggerCount > 1)
